@@ -5,7 +5,23 @@ From Coq Require Import List NArith Bool Arith.
 From DV Require Import C19.Model C19.Proofs.
 Import ListNotations.
 
-(* PARTIAL: the round trip is proved for every table SHAPE within the bounds of the property's quantifier
+(* headline, unbounded: for EVERY well-shaped table (any numbers of inputs, outputs, annotations and rules, any texts, with or
+   without output label and allowed values) the plane-level recogniser reads back exactly the table that was laid out *)
+Theorem C19_plane_roundtrip_h : forall t, wf t = true -> recognize_horizontal (layout_h t) = Some (fields_of t).
+Proof. exact roundtrip_h. Qed.
+
+(* where the recogniser finds the crossings of a laid-out table *)
+Theorem C19_crossings : forall t, wf t = true ->
+  find_plane is_main (layout_h t) = Some (length (t_inputs t), hdr t) /\
+  find_plane is_hcross (layout_h t) = match t_annotations t with [] => None | _ => Some (length (t_inputs t) + 1 + length (t_outputs t), hdr t) end.
+Proof. intros t Hwf. split; [apply main_position | apply hcross_position]. Qed.
+
+(* the header-row-count based detection of the allowed-values line is exact *)
+Theorem C19_values_line_detected : forall t, wf t = true ->
+  input_values_present (layout_h t) (length (t_inputs t)) (hdr t) = Some (t_values t).
+Proof. exact ivp_eq. Qed.
+
+(* PARTIAL (kept as a cross-check of the general proof): the round trip is proved for every table SHAPE within the bounds of the property's quantifier
    (1..5 inputs, 1..3 outputs, 0..2 annotations, 1..8 rules, with/without output label, with/without allowed values)
    over pairwise distinct texts, by a finite sweep; what is missing is the generalisation to unbounded sizes and
    to arbitrary (possibly coinciding) texts.  Also shown per shape: pivot is involutive on the laid-out plane. *)
@@ -37,6 +53,9 @@ Example C19_nonvacuous :
   recognize_horizontal (layout_h t) = Some (fields_of t).
 Proof. exact nonvacuous19. Qed.
 
+Print Assumptions C19_plane_roundtrip_h.
+Print Assumptions C19_crossings.
+Print Assumptions C19_values_line_detected.
 Print Assumptions C19_plane_roundtrip_bounded_partial.
 Print Assumptions C19_pivot_cell_involutive.
 Print Assumptions C19_main_crossing_column.
